@@ -1006,7 +1006,7 @@ def _check(run, tmp):
     # 2. proofs
     dc_ok = False
     if tie_msg is None:
-        vlib.standard_proof_step(run, ['Cache/MachineCheck.vo'])
+        vlib.standard_proof_step(run, ['Cache/MachineCheck.vo', 'Cache/AllowlistCheck.vo'])
         dc_ok = all(o.discharged() for o in run.obligations)
     TT, MT = make_transpilers()
     failures = []          # (title, replay dict, classify)
@@ -1087,6 +1087,10 @@ def _check(run, tmp):
                               'stuck': obs['stuck']}, None))
     # 4. property-level oracle
     failures += oracle(run, rnd, tmp, TT, MT, thorough)
+    al_fail, al_corr = allowlist_histories(run, rnd, tmp, thorough, tie_msg is None)
+    failures += al_fail
+    if al_corr and corr_bad is None:
+        corr_bad = al_corr
     # 5. search, if the discipline or the tie broke
     searched = ''
     if prog is not None and not dc_ok:
@@ -1108,7 +1112,7 @@ def _check(run, tmp):
                 searched += 'did not reproduce on the real code'
     # verdict
     seen = set()
-    order = {'forced-schedule-min': -1, 'option-field-history': 2, 'forced-schedule': 0, 'overlap-probe': 1, 'preemption-sweep': 1, 'sequential-history': 2, 'redefinition': 2}
+    order = {'forced-schedule-min': -1, 'allowlist-history': 1, 'option-field-history': 2, 'forced-schedule': 0, 'overlap-probe': 1, 'preemption-sweep': 1, 'sequential-history': 2, 'redefinition': 2}
     failures.sort(key=lambda f: order.get(f[1].get('kind'), 5))
     for title, rep, cls in failures:
         norm = re.sub(r'\d+', 'N', title)
@@ -1524,6 +1528,213 @@ def dec_kw(k, Feature):
 
 
 
+AL_SRC = '''def f0(x):
+    return (RUNS('f0'), x + 1)
+def f1(x):
+    return (RUNS('f1'), x * 2)
+def leaf(x):
+    return (RUNS('leaf'), x + 1)
+@DNC
+def apply_quietly(cb, x):
+    return cb(x)
+def outer(x):
+    def callback(v):
+        return leaf(v)
+    inside = apply_quietly(callback, x)
+    after = leaf(x)
+    return (inside, after)
+'''
+
+
+def allowlist_histories(run, rnd, tmp, thorough, tie_ok, only_hist=None):
+    """The allowlist cache (second cache on the request path): histories mixing
+    requests made from a DISABLED calling context and enabled requests for the
+    same function object and options, 1..N threads, in a forced order (each
+    request runs in its own thread's context) and free-running.  Every enabled
+    request must run CONVERTED code; observed outcomes are also compared with
+    the allowlist machine (evaluated in Coq)."""
+    from malt.core import ag_ctx, converter
+    from malt.impl import api
+    failures = []
+    fname = os.path.join(tmp, 'c10_allow.py')
+    with open(fname, 'w') as f:
+        f.write(AL_SRC)
+
+    @api.do_not_convert
+    def RUNS(name):
+        fr = sys._getframe()
+        while fr is not None:
+            if fr.f_code.co_name == 'ag__' + name:
+                return True
+            fr = fr.f_back
+        return False
+
+    def load():
+        ns = {'__name__': 'c10_allow', 'RUNS': RUNS, 'DNC': api.do_not_convert}
+        exec(compile(AL_SRC, fname, 'exec'), ns)
+        return ns
+    OPTS = [converter.ConversionOptions(recursive=True, user_requested=True, optional_features=None),
+            converter.ConversionOptions(recursive=False, user_requested=False, internal_convert_user_code=False,
+                                        optional_features=None)]       # the second one: context-independent "run as-is"
+    OPT_TXT = ['ConversionOptions(recursive=True, user_requested=True, optional_features=None)',
+               'ConversionOptions(recursive=False, user_requested=False, internal_convert_user_code=False, optional_features=None)']
+    want_val = {0: lambda x: x + 1, 1: lambda x: x * 2}
+
+    def request(fn, opt, disabled, x):
+        status = ag_ctx.Status.DISABLED if disabled else ag_ctx.Status.UNSPECIFIED
+        with ag_ctx.ControlStatusCtx(status=status):
+            return api.converted_call(fn, (x,), None, options=OPTS[opt])
+
+    def describe(hist):
+        return ['thread %d: with ControlStatusCtx(%s): converted_call(f%d, (3,), None, options=%s)' % (
+            t, 'DISABLED' if d else 'UNSPECIFIED', fi, OPT_TXT[o]) for (t, fi, o, d) in hist]
+
+    def run_forced(hist):
+        """each request is executed by its own thread, one after the other"""
+        ns = load()
+        fns = [ns['f0'], ns['f1']]
+        tids = sorted(set(h[0] for h in hist))
+        qs = dict((t, queue.Queue()) for t in tids)
+        done = queue.Queue()
+
+        def worker(t):
+            while True:
+                it = qs[t].get()
+                if it is None:
+                    return
+                fi, o, d = it
+                try:
+                    done.put(request(fns[fi], o, d, 3))
+                except Exception as ex:   # noqa
+                    done.put('ERR %s: %s' % (type(ex).__name__, str(ex)[:200]))
+        ths = [threading.Thread(target=worker, args=(t,), daemon=True) for t in tids]
+        for th in ths:
+            th.start()
+        obs = []
+        for (t, fi, o, d) in hist:
+            qs[t].put((fi, o, d))
+            obs.append(done.get(timeout=60))
+        for t in tids:
+            qs[t].put(None)
+        for th in ths:
+            th.join(10)
+        return obs
+
+    def judge(hist, obs, mode):
+        for idx, ((t, fi, o, d), r) in enumerate(zip(hist, obs)):
+            if isinstance(r, str):
+                return ('a converted_call request died of ' + r[4:].split(':')[0], idx, r)
+            conv, val = r
+            if val != want_val[fi](3):
+                return ('converted_call changes the result', idx, repr(r))
+            if not d and o == 0 and not conv:
+                return ('an enabled request runs the unconverted function because of an earlier request from a '
+                        'DISABLED context (allowlist cache)', idx, repr(r))
+            if d and conv and mode == 'forced':
+                return ('a request made with AutoGraph disabled in context runs converted code', idx, repr(r))
+        return None
+    if only_hist is not None:
+        obs = run_forced(only_hist)
+        return judge(only_hist, obs, 'forced'), [repr(o) for o in obs]
+    nh = 60 if thorough else 16
+    cases = []
+    for h in range(nh):
+        nthreads = rnd.randint(1, 4)
+        n = rnd.randint(2, 7)
+        hist = [(rnd.randrange(nthreads), rnd.randrange(2), 0 if rnd.random() < 0.8 else 1, rnd.random() < 0.45)
+                for _ in range(n)]
+        if h == 0:
+            hist = [(0, 0, 0, True), (1, 0, 0, False)]          # disabled first, then enabled, other thread
+        if h == 1:
+            hist = [(0, 0, 0, False), (0, 0, 0, True), (0, 0, 0, False)]
+        obs = run_forced(hist)
+        run.count(len(hist))
+        bad = judge(hist, obs, 'forced')
+        if bad:
+            failures.append((bad[0], {'what': bad[0], 'kind': 'allowlist-history', 'history': describe(hist),
+                                      'history_raw': [list(x) for x in hist], 'failing_request_index': bad[1],
+                                      'observed(ran_converted, value)': bad[2],
+                                      'all_observed': [repr(o) for o in obs],
+                                      'functions': 'f0 / f1 of AL_SRC (tools/props/c10.py), fresh function objects'}, None))
+            break
+        if all(not isinstance(r, str) for r in obs):
+            cases.append('(%d, [(0, 1); (1, 1)], [%s], [%s])' % (
+                h, '; '.join('(%d, %d, %d, %s)' % (t, fi, o, vlib.coq_bool(d)) for (t, fi, o, d) in hist),
+                '; '.join(vlib.coq_bool(r[0]) for r in obs)))
+    # the route through a do_not_convert helper (callback invoked with AutoGraph disabled, then a normal call)
+    try:
+        ns = load()
+        for attempt in (1, 2):
+            inside, after = api.to_graph(ns['outer'], recursive=True)(1)
+            if inside != (False, 2) or after != (True, 2):
+                what = 'a function first reached from a do_not_convert region stays unconverted for enabled callers'
+                failures.append((what, {'what': what, 'kind': 'allowlist-callback',
+                                        'history': ['to_graph(outer)(1), run #%d: outer calls apply_quietly(callback, x) '
+                                                    '(@do_not_convert; callback calls leaf) and then leaf(x) directly' % attempt],
+                                        'leaf inside the do_not_convert region (ran_converted, value)': repr(inside),
+                                        'leaf called from converted code afterwards': repr(after),
+                                        'expected': '(False, 2) and (True, 2)'}, None))
+                break
+        run.count(2)
+    except Exception as ex:   # noqa
+        failures.append(('do_not_convert callback route raised ' + type(ex).__name__,
+                         {'kind': 'allowlist-callback', 'traceback': traceback.format_exc()[-1200:]}, None))
+    # free-running threads: half of them in a DISABLED context
+    for rd in range(6 if thorough else 2):
+        ns = load()
+        N = [4, 16, 8, 32, 2, 12][rd]
+        barrier = threading.Barrier(N)
+        res = [None] * N
+        old = sys.getswitchinterval()
+        sys.setswitchinterval(rnd.choice([1e-6, 1e-5, 1e-4]))
+
+        def worker(i):
+            d = (i % 2 == 0)
+            try:
+                barrier.wait(30)
+            except threading.BrokenBarrierError:
+                pass
+            out = []
+            for k in range(6):
+                try:
+                    out.append(request(ns['f0'], 0, d, 3))
+                except Exception as ex:   # noqa
+                    out.append('ERR %s: %s' % (type(ex).__name__, str(ex)[:200]))
+            res[i] = out
+        ths = [threading.Thread(target=worker, args=(i,), daemon=True) for i in range(N)]
+        for th in ths:
+            th.start()
+        for th in ths:
+            th.join(120)
+        sys.setswitchinterval(old)
+        run.count(N * 6)
+        for i in range(N):
+            hist = [(i, 0, 0, i % 2 == 0)] * 6
+            bad = judge(hist, res[i] or [], 'free')
+            if bad:
+                failures.append((bad[0], {'what': bad[0], 'kind': 'allowlist-free-running', 'threads': N,
+                                          'history': ['%d threads, even ones in ControlStatusCtx(DISABLED), odd ones UNSPECIFIED, '
+                                                      'each 6 x converted_call(f0, (3,), None, options=%s)' % (N, OPT_TXT[0])],
+                                          'thread': i, 'failing_request_index': bad[1], 'observed': bad[2]}, None))
+                break
+    corr = None
+    if tie_ok and cases and not failures:
+        body = ['From Coq Require Import List Arith Bool.', 'Import ListNotations.',
+                'Require Import MV.Cache.Machine MV.Cache.KeySrc MV.Cache.Allowlist MV.Generated.C10_gen MV.Cache.AllowlistCheck.',
+                'Definition cases : list acase := [', ';\n'.join(cases), '].',
+                'Eval vm_compute in (afailing allowlist_exits cases).']
+        rc, out = vlib.coq_eval('C10', 'allowlist', '\n'.join(body), timeout=300)
+        bad = vlib.parse_coq_list_of_nat(out) if rc == 0 else None
+        if bad is None:
+            corr = 'allowlist machine evaluation failed: ' + out[-500:]
+        elif bad:
+            corr = 'allowlist machine and api.converted_call disagree on histories %s, e.g. %s' % (bad[:5], [c for c in cases if c.startswith('(%d,' % bad[0])][:1])
+        else:
+            run.extra['allowlist_histories_validated_against_impl'] = len(cases)
+    return failures, corr
+
+
+
 def malt_oracle(run, rnd, tmp, MT, thorough):
     """The real transpiler: options are ConversionOptions values, the reference
     is a conversion by a fresh (empty-cache) transpiler and the original
@@ -1714,6 +1925,12 @@ def replay(path):
                 rc = 1
             print('REPRODUCED' if rc else 'not reproduced')
             return rc
+        if kind == 'allowlist-history':
+            hist = [tuple(x) for x in rep['history_raw']]
+            bad, obs = allowlist_histories(None, None, tmp, False, False, only_hist=hist)
+            print('observed (ran_converted, value) per request:', obs)
+            print('REPRODUCED: %s (request #%d: %s)' % bad if bad else 'not reproduced')
+            return 1 if bad else 0
         if kind == 'option-field-history':
             from malt.core import converter
             hist = [dec_kw(k, converter.Feature) for k in rep['history_kwargs']]
